@@ -1539,3 +1539,69 @@ M("C17-fs-gate-accepts-working-predecessor-without-work", "C17", "R1.2", WF,
 M("C19-task-encoder-forgets-fifth-state", "C19", "R19.1", TK,
   """state != BaseTaskState.READY and state != BaseTaskState.WORKING""",
   """state in (BaseTaskState.NONE, BaseTaskState.FINISHED)""")
+# ---------------------------------------------------------------------------------------- round 9 (refactoring slips)
+M("C03-absence-refresh-stops-early", "C03", "R10.2b", WP,
+  """        for facility in self.facility_list:
+            facility.check_update_state_from_absence_time_list(step_time)""",
+  """        for facility in self.facility_list:
+            facility.check_update_state_from_absence_time_list(step_time)
+            if facility.state == BaseFacilityState.ABSENCE:
+                return""")
+M("C10-absence-refresh-inlined-wrong-state", "C10", "R10.2b", WP,
+  """        for facility in self.facility_list:
+            facility.check_update_state_from_absence_time_list(step_time)""",
+  """        for facility in self.facility_list:
+            if step_time in facility.absence_time_list:
+                facility.state = BaseFacilityState.ABSENCE
+            else:
+                facility.state = BaseFacilityState.FREE""")
+M("C18-remove-loop-breaks", "C18", "R18.2", FA,
+  """        for step_time in sorted(absence_time_list, reverse=True):
+            if step_time < len(self.state_record_list):
+                self.assigned_task_id_record.pop(step_time)
+                self.cost_list.pop(step_time)
+                self.state_record_list.pop(step_time)""",
+  """        for step_time in sorted(absence_time_list, reverse=True):
+            if step_time >= len(self.state_record_list):
+                break
+            self.assigned_task_id_record.pop(step_time)
+            self.cost_list.pop(step_time)
+            self.state_record_list.pop(step_time)""")
+M("C14-inserted-state-after-finish", "C14", "R18.6", CP,
+  """                        if insert_state_after == BaseComponentState.FINISHED:
+                            insert_state = BaseComponentState.FINISHED""",
+  """                        if insert_state_after == BaseComponentState.FINISHED:
+                            insert_state = BaseComponentState.READY""")
+M("C09-workplaces-initialized-per-team", "C09", "R9.4", OG,
+  """        for team in self.team_list:
+            team.initialize(state_info=state_info, log_info=log_info)
+        for workplace in self.workplace_list:
+            workplace.initialize(state_info=state_info, log_info=log_info)""",
+  """        for team in self.team_list:
+            team.initialize(state_info=state_info, log_info=log_info)
+            for workplace in self.workplace_list:
+                workplace.initialize(state_info=state_info, log_info=log_info)""")
+M("C16-team-cost-from-worker-record", "C16", "R16.8", OG,
+  """parent_team=j['parent_team'], cost_list=j['cost_list']))""",
+  """parent_team=j['parent_team'], cost_list=w['cost_list']))""")
+M("C08-team-cost-from-worker-record", "C08", "R16.8", OG,
+  """parent_team=j['parent_team'], cost_list=j['cost_list']))""",
+  """parent_team=j['parent_team'], cost_list=w['cost_list']))""")
+M("C02-busy-facility-only-if-solo", "C02", "R4.2", TK,
+  """            if len(facility.assigned_task_list) > 0:
+                return False""",
+  """            if facility.solo_working and len(facility.assigned_task_list) > 0:
+                return False""")
+M("C12-extend-reads-argument-twice", "C12", "R1.5", TK,
+  """        for input_task in input_task_list:
+            self.input_task_list.append([input_task, task_dependency_mode])
+            input_task.output_task_list.append([self, task_dependency_mode])""",
+  """        self.input_task_list.extend([[input_task, task_dependency_mode] for input_task in input_task_list])
+        for input_task in input_task_list:
+            input_task.output_task_list.append([self, task_dependency_mode])""")
+M("C05-add-worker-keeps-old-team-id", "C05", "R4.5", TM,
+  """        worker.team_id = self.ID
+        self.worker_list.append(worker)""",
+  """        if worker.team_id is None:
+            worker.team_id = self.ID
+        self.worker_list.append(worker)""")
